@@ -141,7 +141,7 @@ func (s *JavaAPIListener) EnterAnnotation(ctx *parser.AnnotationContext) {
 		for _, valuePair := range allValuePair {
 			pair := valuePair.(*parser.ElementValuePairContext)
 			if pair.Identifier().GetText() == "method" {
-				addApiMethod(pair.ElementValue().GetText())
+				addApiMethod(singleArrayElement(pair.ElementValue().GetText()))
 			}
 			if pair.Identifier().GetText() == "value" {
 				text := pair.ElementValue().GetText()
@@ -155,6 +155,15 @@ func (s *JavaAPIListener) EnterAnnotation(ctx *parser.AnnotationContext) {
 // is kept as written
 func stripQuotes(text string) string {
 	if len(text) >= 2 && strings.HasPrefix(text, "\"") && strings.HasSuffix(text, "\"") {
+		return text[1 : len(text)-1]
+	}
+	return text
+}
+
+// singleArrayElement unwraps an array value with one element, `method = {RequestMethod.GET}`;
+// any other value is kept as written
+func singleArrayElement(text string) string {
+	if strings.HasPrefix(text, "{") && strings.HasSuffix(text, "}") && !strings.Contains(text, ",") {
 		return text[1 : len(text)-1]
 	}
 	return text
